@@ -72,5 +72,5 @@ NA = {
  'C03': 'eval.c could not be symbolically executed at useful scale: a one-assert AST through the real eval_statement gave no verdict in 600 s (attempts/shadow_gate.c) and eval_prefix_op on two literal operands gave no verdict in 900 s for any of 16 operators (attempts/eval_ops.c, attempts/c03_operator_kernel.py); only the array builtins of the evaluator (leaf functions) are covered, under C08.',
  'C07': 'parser.c under CBMC: parse_expression on the fully CONCRETE token stream `a + b` (and its prefix spelling) gave no verdict in 300 s (attempts/parser_eq.c: parse_primary explores the type/generic parsers at every identifier); parse_program on 3 symbolic tokens did not finish symbolic execution in 5 min (design probe). The operator semantics of infix spellings on both backends are covered by members of the C01 family (infix_chain, mod_infix, cmp_chain_infix).',
  'C09': 'tokenize() on a single symbolic byte: symbolic execution finishes only with the main loop cut at 3 iterations and the SAT query then gave no verdict in 300 s (value sets of the token array explode; attempts/lexer_total.c); parser/type checker totality not attempted (see C07).',
- 'C17': 'The quantifier is over thread interleavings of whole VM sessions and data races: CBMC cannot carry two interpreter sessions; no bounded encoding within reach. The sequential session path (framing, verification before execution, cleanup) is decided under C18.',
+ 'C17': 'The quantifier is over thread interleavings of whole VM sessions and data races: CBMC cannot carry two interpreter sessions; no bounded encoding within reach. The sequential server-side session path (framing, flushing of an unterminated last line before the exit frame, verification before execution, cleanup) is decided under C18 and catches the seeded change C17/b; a client-side reassembly harness (attempts/vmd_client_rx.c) gave no verdict in 150 s as soon as one output frame is present.',
 }
